@@ -382,6 +382,15 @@ def run(rep, tier):
         # 'a number whose magnitude overflows double is rejected': shared with C04 clause (e)
         from . import c04
         c04.clause_e(facts, rep)
+    if tier == 'quick':
+        # arch-specific source of the SSE configuration (white-space tables, padding vs. load widths): cheap, every run
+        facts3 = get_facts('K3')
+        rep.unit(facts3)
+        w = c02.widest_load(facts3)
+        vl = c02.widest_load(facts3, ('quote.inc.h',))
+        c02.clause_d(facts3, rep, w, vl)
+        from .. import ws_table
+        ws_table.check(facts3, rep)
     rep.extra['traces_validated_against_impl'] = 0
     rep.trust('clang 14 parser/template instantiation/CFG builder/constant evaluator',
               'hand-written RFC 8259 reference transducer in sv/e6_vpa.py (ref_step)',
